@@ -10,6 +10,7 @@ from ..gen import exprs as X
 
 PROPERTY = "C06"
 LEVEL = "exploration"
+USES_REFERENCE_MODELS = True
 RULE = ("case = random reference graph over 2-14 lines; references sit in GOTO/GOSUB, THEN/ELSE <line>, THEN GOTO, ELSE IF chains, "
         "nested IF arms, every position of ON lists, after ':' on multi-statement lines, ON ERR / ON BRK; self references and "
         "line 0 included; x filter_unused_linenum x add_suffix; refusal cases by deleting a target, inflating a number, "
